@@ -12,12 +12,19 @@ sys.path.insert(0, %r)
 from sim import runner
 pid = sys.argv[1]; n = int(sys.argv[2]); seed = int(sys.argv[3])
 prop = runner.load_prop(pid)
+if hasattr(prop, "warmup"):
+    prop.warmup()
+cmp_replay = getattr(prop, "SELFTEST_REPLAY_COMPARABLE", True)
 out = []
 for i in range(n):
     r = prop.generate(random.Random(runner.mix(seed, pid, i)), "thorough", i)
-    d1 = r["stats"].get("digest")
+    import hashlib
+    def dg(res):
+        st = res["stats"]
+        return st.get("digest") or hashlib.sha256(repr((st.get("shape"), sorted((st.get("faults") or {}).items()), res["violation"])).encode()).hexdigest()[:16]
+    d1 = dg(r)
     r2 = prop.replay(r["case"])
-    d2 = r2["stats"].get("digest")
+    d2 = dg(r2) if cmp_replay else d1
     out.append((d1, d2, bool(r["violation"]), bool(r2["violation"])))
 print("DIGESTS " + json.dumps(out))
 ''' % V
